@@ -12,7 +12,7 @@ CHECKS = {
          "Faults: connection cuts at any message, interleaved sessions, crash/restart, clock skew and jumps; no message loss inside a live stream (QUIC excludes it). Open known findings (multi-entity summary blindness; references added with a losing source version) are reported as KNOWN-FINDING; the single-entity / non-concurrent-reference space is checked in full."),
  "C02": ("byz", "exploration", "An honest victim runs its real pull of a room while a man in the middle holding its own key (own-rows right on one entity from a known date, possibly disabled later) and every validly signed row it was served rewrites the honest source's answers: 16 operators over rows, references and deletion records (wrong room, no right, before enabled / after disabled, foreign row replaced, deleted or moved with the own-rows right only, tampered, oversized, model-violating, unknown entity or label, foreign / absent source row) interleaved with honest writes and pulls; afterwards nothing injected is found in any table, the attacked rows are unchanged, and after an undisturbed pull everything the victim stores is something the source stores or a row the adversary was entitled to write, and its daily log is the function of its content.",
          "Signatures are real ed25519: the adversary cannot sign for keys it does not hold. Three open known findings, all on references (accepted on the author's own-rows right alone: source row of another room, absent, or written by somebody else)."),
- "C06": ("byz", "exploration", "Same setting with signature operators: a validly signed reference re-cut at the boundary of its two adjacent variable-length fields, in a model built so that both cuts are reference fields, and rows / references in the honest user's name whose signature is the user's answer to an identity challenge chosen by the adversary: nothing the user did not write may be stored under its key.",
+ "C06": ("byz,rights", "exploration", "Two engines. (a) In the rights engine, after every accepted local operation and after every synchronisation, every stored row, reference and deletion record of every node is verified against its own signature exactly as stored. (b) Same setting as C02 with signature operators: a validly signed reference re-cut at the boundary of its two adjacent variable-length fields, in a model built so that both cuts are reference fields, and rows / references in the honest user's name whose signature is the user's answer to an identity challenge chosen by the adversary: nothing the user did not write may be stored under its key.",
          "Only references have adjacent variable-length fields in their digest (rows go through JSON and fixed-size values; deletion records keep strings apart). One open known finding (reference digest without lengths); the signing request was a genuine signing oracle and is repaired (fix 2781df6)."),
  "C07": ("byz", "exploration", "Same setting with room-definition operators: the adversary claims a newer definition date and substitutes the definition the victim imports through the real add_room_node, for a room the victim knows and for a member that never saw it: older definition with entries omitted, admin-signed user entry re-attached as admin or moved to the all-rights group, right entry of another room, self-signed admin / right / user-admin entries, existing reference signed again; every entry stored before is stored unchanged after, nothing new is stored and the decision grid identities x entities x dates x {admin, member, own, all} does not move (fresh member: grants nothing the honest definition does not).",
          "None of the crafted definitions contains an entry added by somebody entitled to, so any change is a violation; honest news are pulled first. Open known findings share two causes (placing references never authorship-checked - the shipped unit test room_node::tests::invalid asserts it; a room not seen before authorises itself). With proposed_fixes/C07-reference-authorship.diff applied the known-room part of the check is clean."),
@@ -32,7 +32,7 @@ CHECKS = {
          "Three open known findings: the synchronisation path and deletions never maintain the contentless full-text index; locally written, never-synchronised rows are checked in full."),
  "C01": ("rights", "exploration", "2-4 identities and 1-2 rooms with evolving definitions; every operation shape by any identity; each API verdict compared with an independent rights model at the operation's date; a refused operation must leave the whole database (rows, references, deletion logs, daily log, room change log) unchanged; direct mutations or deletions of authorisation rows must be refused.",
          "Rights model assumptions are listed in the evidence file. One open known finding: user admins cannot use their right (the feature is inconsistent between the local and the import path)."),
- "C10": ("rights", "exploration", "The in-memory room of every node - live on the mutating node, imported on the others, reloaded after restart - is questioned over identities x entities x entry dates +-1 ms x {admin, member, own-rows, all-rows} and must give the decisions of the rights model; every restart must succeed.",
+ "C10": ("rights", "exploration", "The in-memory room of every node - live on the mutating node, imported on the others, reloaded after restart - is questioned over identities x entities x entry dates +-1 ms x {admin, member, own-rows, all-rows} and must give the decisions of the rights model; every restart must succeed; an instance that never saw the rooms (late joiner) imports them after several definition changes, decides like the model, restarts and decides the same.",
          "Rooms reach importers through the real pull path (verify_room_node, add_room_node); the grid is read with the cfg-only VerifGetRoom accessor."),
  "C12": ("rights", "exploration", "After every locally accepted data operation all peers holding the same room definitions pull until quiet and must store exactly the same rows, references and deletion records; a creation refused locally for lack of right, signed with the refused author's key, is offered to a peer through the real ingestion entry point and must be refused.",
          "The two implementations are each other's oracle. Inherits the open summary-blindness finding for writes touching a second entity of the last day."),
